@@ -618,7 +618,13 @@ impl Family for C15 {
                             2 => 0,
                             _ => rng.range(1, 1000),
                         };
-                        (v, c)
+                        // occasionally a very large value with a small multiplicity (totals
+                        // must still fit in 64 bits: the unary total is (v+1)*count)
+                        if rng.chance(1, 12) {
+                            (rng.interesting((1u64 << 61) - 1), rng.range(0, 2))
+                        } else {
+                            (v, c)
+                        }
                     })
                     .collect()
             })
